@@ -136,6 +136,7 @@ pub fn gen_case(ch: &mut Chooser) -> Case {
     assign_plain_ids(ch, &mut root, 1, 2);
     let mut expects = vec![];
     decorate_simple(ch, &mut root, 2, StrMode::Plain, &mut expects);
+    let _ = expects;
     // explicit actions lists
     let mut explicit = BTreeMap::new();
     let flat: Vec<(Vec<usize>, String, bool)> = root.flat().into_iter().map(|(p, o)| (p, o.class.clone(), is_separator(o))).collect();
